@@ -7,7 +7,7 @@ Notation gident := (list (Qc * N)) (only parsing).
 Notation glist := (list (list (Qc * N))) (only parsing).
 
 Definition gl_apply (g : list (list (Qc * N))) (id : list (Qc * N)) : list (list (Qc * N)) :=
-  set_insert ncompare id g.
+  idset_insert ncompare id g.
 Definition gl_merge (g o : list (list (Qc * N))) : list (list (Qc * N)) :=
   foldl gl_apply g o.
 (** [read]: [value()] of every identifier ([None] = the [unwrap] panic). *)
@@ -73,8 +73,8 @@ Definition l_apply (s : clist) (o : lop) : option clist :=
   | Some d =>
       if dcounter d <=? vget (lclock s) (dactor d) then Some s
       else Some match o with
-           | LInsert id v => CList (map_insert odcmp id v (lseq s)) (vapply (lclock s) d)
-           | LDelete id _ => CList (map_remove odcmp id (lseq s)) (vapply (lclock s) d)
+           | LInsert id v => CList (idmap_insert odcmp id v (lseq s)) (vapply (lclock s) d)
+           | LDelete id _ => CList (idmap_remove odcmp id (lseq s)) (vapply (lclock s) d)
            end
   end.
 Definition l_validate_op (s : clist) (o : lop) : option (option (N * N * N)) :=
